@@ -2,6 +2,11 @@
 (* The outcome class of decoding a CRC-valid frame, derived from the message's  *)
 (* layout (generated Layouts!MsgTable / ListTable): "typed", "corrupt" or       *)
 (* "either" where no listed property fixes the class.                           *)
+(* "typed" is only demanded for bodies of canonical length (what the encoder   *)
+(* itself would emit: the needed bits padded to the byte): whether a decoder    *)
+(* tolerates extra trailing bytes is not fixed by any listed property, so a     *)
+(* longer body is "either".  "corrupt" (body too short / count inadmissible)    *)
+(* is demanded for every length: C07 (reads past the end fail) + C15.           *)
 (*  fixed : the decoder reads exactly fixedbits bits; a shorter body is a       *)
 (*          parse overflow (Corrupt), anything else decodes (absent / invalid   *)
 (*          field patterns are values, never errors);                           *)
@@ -28,7 +33,7 @@ MsmClass(f, m) ==
     ELSE LET S == Ones1(PBits(f, m.fixedbits, 64))
              G == Ones1(PBits(f, m.fixedbits + 64, 32))
              nc == Cardinality(S) * Cardinality(G) IN
-         IF S = {} /\ G = {} THEN "typed"
+         IF S = {} /\ G = {} THEN (IF body - (m.fixedbits + 96) < 8 THEN "typed" ELSE "either")
          ELSE IF nc = 0 \/ nc > 64 THEN "corrupt"
          ELSE IF body < m.fixedbits + 96 + nc THEN "corrupt"
          ELSE LET cm == PBits(f, m.fixedbits + 96, nc)
@@ -38,6 +43,7 @@ MsmClass(f, m) ==
                   used == {gs[((i - 1) % Len(gs)) + 1] : i \in Ones1(cm)}
                   need == m.fixedbits + 96 + nc + Cardinality(S) * m.satbits + ncell * m.sigbits IN
               IF body < need THEN "corrupt"
+              ELSE IF body - need >= 8 THEN "either"
               ELSE IF \A p \in used : \E t \in Std[m.gnss] : t[1] = p THEN "typed" ELSE "either"
 
 ListClass(f, m, L) ==
@@ -46,14 +52,16 @@ ListClass(f, m, L) ==
     ELSE LET c == FromBitsU(PBits(f, L.countoff, L.countbits)) IN
          IF c > L.cap THEN "corrupt"
          ELSE IF body < L.elemsoff \/ body < L.elemsoff + c * L.elembits THEN "corrupt"
-         ELSE "typed"
+         ELSE IF body - (L.elemsoff + c * L.elembits) < 8 THEN "typed" ELSE "either"
 
-ExpectedClass(f) ==
+Canon(body, need) == IF body - need < 8 THEN "typed" ELSE "either"      \* body >= need is known here
+RawClass(f) ==
     LET n == Num(f) IN
     IF ~HasMsg(n) THEN "either"
     ELSE LET m == MsgOf(n) IN
-         CASE m.kind = "fixed" -> IF 8 * DeclLen(f) >= m.fixedbits THEN "typed" ELSE "corrupt"
+         CASE m.kind = "fixed" -> IF 8 * DeclLen(f) >= m.fixedbits THEN Canon(8 * DeclLen(f), m.fixedbits) ELSE "corrupt"
            [] m.kind = "list"  -> ListClass(f, m, ListOf(n))
            [] m.kind = "msm"   -> MsmClass(f, m)
            [] OTHER            -> "either"
+ExpectedClass(f) == RawClass(f)
 =============================================================================
